@@ -12,6 +12,7 @@ package main
 
 import (
 	"fmt"
+	"sort"
 	"strings"
 )
 
@@ -172,6 +173,9 @@ func unify(pt, t *Term, b bindings) (bindings, bool) {
 	if t == nil {
 		return nil, false
 	}
+	if pt.Op == "choice" && t.Op == "choice" {
+		return unifyChoice(pt.Args, t.Args, b)
+	}
 	if pt.Op != t.Op || len(pt.Args) != len(t.Args) {
 		return nil, false
 	}
@@ -275,5 +279,70 @@ func instantiate(pt *Term, b bindings) *Term {
 			}
 		}
 		return nil
+	})
+}
+
+// unifyChoice matches the alternatives of a choice as sets (every pattern
+// alternative matches a distinct term alternative and none is left over).
+func unifyChoice(ps, ts []*Term, b bindings) (bindings, bool) {
+	if len(ps) != len(ts) {
+		return nil, false
+	}
+	used := make([]bool, len(ts))
+	var rec func(i int, cur bindings) (bindings, bool)
+	rec = func(i int, cur bindings) (bindings, bool) {
+		if i == len(ps) {
+			return cur, true
+		}
+		for j, t := range ts {
+			if used[j] {
+				continue
+			}
+			if nb, ok := unify(ps[i], t, cur); ok {
+				used[j] = true
+				if res, ok := rec(i+1, nb); ok {
+					return res, true
+				}
+				used[j] = false
+			}
+		}
+		return nil, false
+	}
+	return rec(0, b)
+}
+
+// canon rewrites alt/phi (unordered alternatives introduced by function
+// boundaries and joins) into one flattened, de-duplicated choice(...) so
+// that inlining or extracting a helper does not change the shape compared.
+func canon(t *Term) *Term {
+	return t.rewrite(func(u *Term) *Term {
+		if u.Op != "alt" && u.Op != "phi" && u.Op != "choice" {
+			return nil
+		}
+		uniq := map[string]*Term{}
+		var add func(x *Term)
+		add = func(x *Term) {
+			if x.Op == "choice" || x.Op == "alt" || x.Op == "phi" {
+				for _, a := range x.Args {
+					add(a)
+				}
+				return
+			}
+			uniq[x.String()] = x
+		}
+		add(u)
+		keys := make([]string, 0, len(uniq))
+		for k := range uniq {
+			keys = append(keys, k)
+		}
+		sort.Strings(keys)
+		if len(keys) == 1 {
+			return uniq[keys[0]]
+		}
+		args := make([]*Term, len(keys))
+		for i, k := range keys {
+			args[i] = uniq[k]
+		}
+		return &Term{Op: "choice", Args: args}
 	})
 }
